@@ -95,6 +95,16 @@ def install() -> None:
     node_mod.door = DoorShim
     worker_mod.remote.wait_for_login = lambda client=None, host=None, port=None, *a, **k: _Session(host, port)
 
+    # observer of the visit bookkeeping: every recorded visit is remembered together with the register it went into
+    real_register = node_mod.EdgeRegister.register
+
+    def register(self: Any, node: Any, worker: Any) -> None:
+        real_register(self, node, worker)
+        if CUR is not None:
+            CUR.visits.append((self, node.bridged_form, worker.id))
+
+    node_mod.EdgeRegister.register = register
+
     real_get_parser = params_parser.Reparsable.get_parser
     real_get_params = params_parser.Reparsable.get_params
 
@@ -285,6 +295,7 @@ def menu(name: str, **kw: Any) -> Scenario:
         "G23": ("leaves..tutorial2,leaves..tutorial_gui", "net1 net2"),
         "G4": ("leaves..tutorial_get", "net1 net2"),
         "G4f": ("leaves..tutorial_finale", "net1 net2"),
+        "G4fx3": ("leaves..tutorial_finale", "net1 net2 net4"),
         "G5": ("normal..tutorial1", "net1 net5"),
         "G5b": ("normal..tutorial3", "net3 net5"),
         "G6": ("leaves..tutorial_gui", "cluster1.net6 cluster1.net7 cluster2.net6"),
@@ -353,6 +364,7 @@ class Run:
         self.late: dict[str, Any] = {}
         self.real_agree = 0
         self.real_disagree = 0
+        self.visits: list[tuple[Any, str, str]] = []
 
     # -- store model -----------------------------------------------------------
     def bit(self, where: str, key: tuple[str, str]) -> bool:
